@@ -151,3 +151,30 @@ Example monitor_rejects_uncharged_scope :
   monitor_case [7; 1; 1; 2; -1; -1; -1; -1;  1; 0; 1; 0;
                 5; 1; 0; 1; 0;  0; 0; 1; 0; 0; 1; 0; 0;  0;  1; 0;  1; 0; 0; 0] <> [].
 Proof. vm_compute. discriminate. Qed.
+
+(* ---- p2p/host/blank (anchor; not part of the model) --------------------------- *)
+(* the two traces the blank-host probe records on the unchanged tree, judged by
+   the property monitor: BlankHost ignores the error of Stream.SetProtocol.
+   Listener side: scope of protocol 5 at its limit (0), the handler still runs,
+   its stream reports no protocol (-1) and the listener's scope is not charged. *)
+Example blank_host_listener_trace_rejected :
+  monitor_case [7; 3; 1; 8; -1; -1; -1; -1; -1; -1; 0; -1; -1; -1; -1; -1; -1; 0; -1; -1;
+                1; 5; 1; 5;  5; 1; 0; 1; 5;  0; 5; 1; 0; -1; 1; 0; -1;  0;  1; 5;
+                0; 0; 0; 0; 0; 1; 0; 0;  0; 0; 0; 0; 0; 0; 0; 0] <> [].
+Proof. vm_compute. discriminate. Qed.
+
+(* Dialer side: scope of protocol 6 at its limit (0), NewStream still returns a
+   working stream; it reports no protocol and the dialer's scope is not charged *)
+Example blank_host_dialer_trace_rejected :
+  monitor_case [7; 3; 1; 8; -1; -1; -1; -1; -1; -1; 0; -1; -1; -1; -1; -1; -1; 0; -1; -1;
+                1; 6; 1; 6;  5; 1; 0; 1; 6;  0; -1; 1; 0; 6; 1; 0; 6;  0;  1; 6;
+                0; 0; 0; 0; 0; 0; 0; 0;  0; 0; 0; 0; 0; 0; 1; 0] <> [].
+Proof. vm_compute. discriminate. Qed.
+
+(* what the basic host does in the same two situations (the model): the
+   listener resets without dispatching / the open fails; accepted by the monitor *)
+Example basic_host_same_situations_accepted :
+  let c := mkCfg (fun p => if p =? 6 then 0 else -1) (fun p => if p =? 5 then 0 else -1) false in
+  holds 8 true (limL c) (trace_i 8 c init_st [OAdd 5; OBatch [mkReq [5] [] false false];
+                                               OAdd 6; OBatch [mkReq [6] [] false false]]) = true.
+Proof. vm_compute. reflexivity. Qed.
